@@ -18,51 +18,126 @@ def ENV : Env := ⟨[['a', 'm', 'q', '.', 'd', 'i', 'r', 'e', 'c', 't'], ['a', '
 
 /-! ### the engine's address strings declare exactly what they describe -/
 
-/-- For every transport, every broker state and every queue name / instance id / queue type for which the
-three derived names are free of the grammar's separators (`;`, `/`, a leading `{`), unpadded, and not the
-name of an existing exchange, the engine's address strings ask the broker for exactly:
-* shared queue: one durable, non-exclusive, non-auto-delete queue (with the quorum argument when configured)
-  and a non-exclusive subscription;
-* instance queue: one such durable queue and an *exclusive* subscription;
-* reply queue: one such durable queue and a subscription carrying `x-priority: 10`;
-* notification topic (shipped configuration): one durable topic exchange, published to directly;
-* the event producer (`session.producer(queue_name)`) and the task producer (`session.producer()`):
-  nothing — they publish to the default exchange —
+/-- For every transport, every broker state, every prefetch the configuration sets (or none) and every queue
+name / instance id / queue type for which the three derived names are free of the grammar's separators (`;`,
+`/`, a leading `{`), unpadded, and not the name of an existing exchange, the engine's address strings make the
+layer send the broker exactly these frames, in this order:
+* shared queue: the constructor's prefetch, a *passive* probe (temporary channel) for an exchange of that name,
+  one declaration of a durable, non-exclusive, non-auto-delete queue (with the quorum argument when
+  configured), the configured prefetch, a non-exclusive subscription that is not auto-acknowledged;
+* instance queue: the same with an *exclusive* subscription;
+* reply queue: the same with a subscription carrying `x-priority: 10`;
+* notification topic (shipped configuration): the passive probe and one declaration of a durable, non-internal
+  topic exchange, published to directly;
+* the event producer (`session.producer(queue_name)`): the passive probe only, and the task producer
+  (`session.producer()`): nothing — they publish to the default exchange —
 and nothing else. -/
-theorem address_declares (t : Transport) (env : Env) (qn iid : Str) (qt : QType)
+theorem address_declares (t : Transport) (env : Env) (qn iid : Str) (qt : QType) (cs ci cr : Option Nat)
     (hs : Clean (sharedName qn qt)) (hi : Clean (instanceName qn qt iid)) (hr : Clean (replyName qt iid))
     (xs : sharedName qn qt ∉ env.exchanges) (xi : instanceName qn qt iid ∉ env.exchanges)
     (xr : replyName qt iid ∉ env.exchanges) :
-    consumerOps t env (sharedAddr qn qt) =
-      .ok ([.queueDeclare (.str (sharedName qn qt)) (.bool false) (.bool true) (.bool false) (.bool false) (queueArgs qt),
-            .consume (.str (sharedName qn qt)) (.bool false) .null], sharedName qn qt) ∧
-    consumerOps t env (instanceAddr qn qt iid) =
-      .ok ([.queueDeclare (.str (instanceName qn qt iid)) (.bool false) (.bool true) (.bool false) (.bool false) (queueArgs qt),
-            .consume (.str (instanceName qn qt iid)) (.bool true) .null], instanceName qn qt iid) ∧
-    consumerOps t env (replyAddr qt iid) =
-      .ok ([.queueDeclare (.str (replyName qt iid)) (.bool false) (.bool true) (.bool false) (.bool false) (queueArgs qt),
-            .consume (.str (replyName qt iid)) (.bool false) (.obj [(sXPriority, .num 10)])], replyName qt iid) ∧
+    consumerOps t env (sharedAddr qn qt) cs =
+      .ok ([.qos 500, .probe (sharedName qn qt),
+            .queueDeclare (.str (sharedName qn qt)) (.bool false) (.bool true) (.bool false) (.bool false) (queueArgs qt)] ++
+           capacityOp cs ++
+           [.consume (.str (sharedName qn qt)) (.bool false) (.bool false) .null], sharedName qn qt) ∧
+    consumerOps t env (instanceAddr qn qt iid) ci =
+      .ok ([.qos 500, .probe (instanceName qn qt iid),
+            .queueDeclare (.str (instanceName qn qt iid)) (.bool false) (.bool true) (.bool false) (.bool false) (queueArgs qt)] ++
+           capacityOp ci ++
+           [.consume (.str (instanceName qn qt iid)) (.bool false) (.bool true) .null], instanceName qn qt iid) ∧
+    consumerOps t env (replyAddr qt iid) cr =
+      .ok ([.qos 500, .probe (replyName qt iid),
+            .queueDeclare (.str (replyName qt iid)) (.bool false) (.bool true) (.bool false) (.bool false) (queueArgs qt)] ++
+           capacityOp cr ++
+           [.consume (.str (replyName qt iid)) (.bool false) (.bool false) (.obj [(sXPriority, .num 10)])], replyName qt iid) ∧
     producerOps t env topicAddr =
-      .ok ([.exchangeDeclare (.str sEngine) (.str sTopic) (.bool false) (.bool true) (.bool false) .null], ⟨sEngine, []⟩) ∧
-    producerOps t env (sharedName qn qt) = .ok ([], ⟨[], sharedName qn qt⟩) ∧
+      .ok ([.probe sEngine,
+            .exchangeDeclare (.str sEngine) (.str sTopic) (.bool false) (.bool true) (.bool false) (.bool false) .null],
+           ⟨sEngine, []⟩) ∧
+    producerOps t env (sharedName qn qt) = .ok ([.probe (sharedName qn qt)], ⟨[], sharedName qn qt⟩) ∧
     producerOps t env [] = .ok ([], ⟨[], []⟩) := by
   refine ⟨?_, ?_, ?_, ?_, ?_, ?_⟩
   · simp only [consumerOps, sharedAddr, parseAddress_clean hs (semi_sharedTail qt) (parse_sharedTail qt)]
-    exact consumer_shared_eval env _ qt hs.nonempty xs
+    exact consumer_shared_eval env _ cs qt hs.nonempty xs
   · simp only [consumerOps, instanceAddr, parseAddress_clean hi (semi_instanceTail qt) (parse_instanceTail qt)]
-    exact consumer_instance_eval env _ qt hi.nonempty xi
+    exact consumer_instance_eval env _ ci qt hi.nonempty xi
   · simp only [consumerOps, replyAddr, parseAddress_clean hr (semi_replyTail qt) (parse_replyTail qt)]
-    exact consumer_reply_eval env _ qt hr.nonempty xr
+    exact consumer_reply_eval env _ cr qt hr.nonempty xr
   · have hp : parseAddress topicAddr = destOf [] [] optsTopic := by rfl
     simp only [producerOps, hp]
     simp [optsTopic, destOf, nodePart, truthyObj, dget, objGet, nonEmptyObj, nonEmptyArr, isStr, Json.truthy, bind,
-      Except.bind, pure, Except.pure, objSet, declare0, upd, producerOpen, exchangeOp, strOf, sEngine, sTopic]
+      Except.bind, pure, Except.pure, objSet, declare0, upd, producerOpen, exchangeOp, probeOp, strOf, sEngine, sTopic]
   · simp only [producerOps, parseAddress_name hs]
     exact producer_name_eval env _ hs.nonempty xs
   · have hp : parseAddress [] = destOf [] [] (.obj []) := by rfl
     simp only [producerOps, hp]
     simp [destOf, truthyObj, dget, objGet, Json.truthy, bind, Except.bind, pure, Except.pure, producerOpen,
-      exchangeOp, declare0]
+      exchangeOp, probeOp, declare0]
+
+/-- … and what those frames can create at the broker is exactly: one durable (non-exclusive, non-auto-delete)
+queue and one subscription per consumer address — exclusive on the instance queue only, `x-priority` on the
+reply queue only —, one durable non-internal topic exchange for the notification topic, and nothing for the
+event producer (its only frame is the passive probe: an address that describes no exchange creates none) and
+the task producer; no binding anywhere. -/
+theorem address_creates (t : Transport) (env : Env) (qn iid : Str) (qt : QType) (cs ci cr : Option Nat)
+    (hs : Clean (sharedName qn qt)) (hi : Clean (instanceName qn qt iid)) (hr : Clean (replyName qt iid))
+    (xs : sharedName qn qt ∉ env.exchanges) (xi : instanceName qn qt iid ∉ env.exchanges)
+    (xr : replyName qt iid ∉ env.exchanges) :
+    (consumerOps t env (sharedAddr qn qt) cs).map (fun r => created r.1) =
+      .ok [.queue (.str (sharedName qn qt)) (.bool true) (.bool false) (.bool false) (queueArgs qt),
+           .subscription (.str (sharedName qn qt)) (.bool false) (.bool false) .null] ∧
+    (consumerOps t env (instanceAddr qn qt iid) ci).map (fun r => created r.1) =
+      .ok [.queue (.str (instanceName qn qt iid)) (.bool true) (.bool false) (.bool false) (queueArgs qt),
+           .subscription (.str (instanceName qn qt iid)) (.bool false) (.bool true) .null] ∧
+    (consumerOps t env (replyAddr qt iid) cr).map (fun r => created r.1) =
+      .ok [.queue (.str (replyName qt iid)) (.bool true) (.bool false) (.bool false) (queueArgs qt),
+           .subscription (.str (replyName qt iid)) (.bool false) (.bool false) (.obj [(sXPriority, .num 10)])] ∧
+    (producerOps t env topicAddr).map (fun r => created r.1) =
+      .ok [.exchange (.str sEngine) (.str sTopic) (.bool true) (.bool false) (.bool false) .null] ∧
+    (producerOps t env (sharedName qn qt)).map (fun r => created r.1) = .ok [] ∧
+    (producerOps t env []).map (fun r => created r.1) = .ok [] := by
+  obtain ⟨h1, h2, h3, h4, h5, h6⟩ := address_declares t env qn iid qt cs ci cr hs hi hr xs xi xr
+  rw [h1, h2, h3, h4, h5, h6]
+  refine ⟨?_, ?_, ?_, ?_, ?_, ?_⟩
+  · exact congrArg Except.ok (created_plainQueue _ qt cs _ _)
+  · exact congrArg Except.ok (created_plainQueue _ qt ci _ _)
+  · exact congrArg Except.ok (created_plainQueue _ qt cr _ _)
+  · simp [Except.map, created, Op.creates, Json.truthy]
+  · simp [Except.map, created, Op.creates]
+  · simp [Except.map, created]
+
+/-- the existence probe is the only frame sent outside the session channel, and it is passive: whatever the
+address, no frame on the temporary channel creates anything, and a Producer creates at most the one exchange
+its `x-declare` names — none when the address describes none (for every address string and broker state) -/
+theorem probe_declares_nothing (t : Transport) (env : Env) (addr : Str) :
+    (∀ op : Op, op.channel = .temp → op.creates = []) ∧
+    (∀ d, parseAddress addr = .ok d →
+      (producerOps t env addr).map (fun r => created r.1) = .ok (created (exchangeOp d.declare)) ∧
+      ((dget d.declare ['e', 'x', 'c', 'h', 'a', 'n', 'g', 'e']).truthy = false →
+        (producerOps t env addr).map (fun r => created r.1) = .ok [])) := by
+  refine ⟨?_, ?_⟩
+  · intro op h
+    cases op <;> first | rfl | cases h
+  · intro d hd
+    have h1 : (producerOps t env addr).map (fun r => created r.1) = .ok (created (exchangeOp d.declare)) := by
+      simp [producerOps, hd, Except.map, producerOpen, created_append, created_probeOp]
+    refine ⟨h1, fun hx => ?_⟩
+    rw [h1]
+    simp [exchangeOp, hx, created]
+
+/-- `probe_declares_nothing` is not vacuous: a bare name is probed (passively, on the temporary channel) and
+nothing else is sent; an address that does describe an exchange creates exactly that one -/
+example : producerOps .asyncio ENV ['q', '1'] = .ok ([.probe ['q', '1']], ⟨[], ['q', '1']⟩) ∧
+    (Op.probe ['q', '1']).channel = .temp ∧ created [.probe ['q', '1']] = [] ∧
+    (producerOps .blocking ENV topicAddr).map (fun r => created r.1) =
+      .ok [.exchange (.str sEngine) (.str sTopic) (.bool true) (.bool false) (.bool false) .null] := by
+  refine ⟨by rfl, rfl, rfl, by rfl⟩
+
+/-- an address that describes an *internal* exchange (`{"node":{"x-declare":{"exchange":"x","internal":true}}}`) declares an internal
+exchange: the `internal` key of `x-declare` is passed through like `durable` and `auto-delete` -/
+example : (producerOps .blocking ENV ['{', '"', 'n', 'o', 'd', 'e', '"', ':', '{', '"', 'x', '-', 'd', 'e', 'c', 'l', 'a', 'r', 'e', '"', ':', '{', '"', 'e', 'x', 'c', 'h', 'a', 'n', 'g', 'e', '"', ':', '"', 'x', '"', ',', '"', 'i', 'n', 't', 'e', 'r', 'n', 'a', 'l', '"', ':', 't', 'r', 'u', 'e', '}', '}', '}']).map (fun r => created r.1) =
+    .ok [.exchange (.str ['x']) (.str ['d', 'i', 'r', 'e', 'c', 't']) (.bool false) (.bool false) (.bool true) .null] := by rfl
 
 /-- `address_declares` applies to the shipped configuration (both queue types, a uuid instance id, a fresh broker) -/
 example : ∀ qt : QType,
@@ -77,8 +152,9 @@ example : ∀ qt : QType,
 queue under a truncated name (the options are ignored) — outside the documented grammar
 `<name> [ / <subject> ] [ ; <options> ]` -/
 example : consumerOps .asyncio ENV (instanceAddr QN .classic ['a', ';', 'b']) =
-    .ok ([.queueDeclare (.str (QN ++ ['-', 'a'])) (.bool false) (.bool false) (.bool false) (.bool false) .null,
-          .consume (.str (QN ++ ['-', 'a'])) (.bool false) .null], QN ++ ['-', 'a']) := by rfl
+    .ok ([.qos 500, .probe (QN ++ ['-', 'a']),
+          .queueDeclare (.str (QN ++ ['-', 'a'])) (.bool false) (.bool false) (.bool false) (.bool false) .null,
+          .consume (.str (QN ++ ['-', 'a'])) (.bool false) (.bool false) .null], QN ++ ['-', 'a']) := by rfl
 
 /-- … and one holding `/` is refused as a subject on something that is not an exchange -/
 example : consumerOps .blocking ENV (instanceAddr QN .classic ['a', '/', 'b']) = .error .noExchange := by rfl
@@ -158,6 +234,47 @@ theorem rpc_addressing (t : Transport) (qt : QType) (iid fn corr payload : Str) 
     · exact ⟨0, by rw [h0]⟩
     · exact ⟨timeoutMs.toNat, rfl⟩
   · simp [send, rpcRequest, Msg.setSubject, ht, routeDefault]
+
+/-- a task request to a function nobody serves (no queue of that name) comes back to the requesting
+producer (`Basic.Return`), and the Message the return callback is handed is the request: same body,
+application properties, subject, correlation id and reply-to; it is not a delivery (tag 0), and acknowledging it
+the way the engine acknowledges acknowledges no delivery at all.  A request whose queue exists is not returned. -/
+theorem unroutable_request_returned (t : Transport) (qt : QType) (iid fn corr payload : Str) (carrier : Dict)
+    (timeoutMs : Int) (queues : List Str) (hf : fn ≠ []) :
+    let rq := rpcRequest qt iid fn corr payload carrier timeoutMs
+    let f := send t ⟨[], []⟩ rq
+    let m := returned t f
+    isReturned queues f = decide (fn ∉ queues) ∧
+    m.body = payload ∧ m.properties = rq.properties ∧ m.subject = .str fn ∧ m.correlationId = .str corr ∧
+    m.replyTo = .str (replyName qt iid) ∧ m.tag = 0 ∧ ∀ c : Chan, engineAck t c m = c := by
+  have h := rpc_addressing t qt iid fn corr payload carrier timeoutMs queues hf
+  have hr := message_mapping_roundtrip t ⟨[], []⟩ (rpcRequest qt iid fn corr payload carrier timeoutMs) 0 false
+  obtain ⟨_, hk, hrt, hc, hm, hb, _, _⟩ := h
+  obtain ⟨_, rp, rs, _, _, _, _, _, rtag, _, _⟩ := hr
+  have hsub : (rpcRequest qt iid fn corr payload carrier timeoutMs).subject = .str fn := by
+    have hk' := hk
+    simp only [send] at hk'
+    split at hk'
+    · exact hk'
+    · exact absurd (Json.str.inj hk').symm hf
+  refine ⟨?_, ?_, ?_, ?_, ?_, ?_, ?_, ?_⟩
+  · simp only [isReturned, hm, hk, routeDefault, Bool.true_and]
+    by_cases hq : fn ∈ queues <;> simp [hq]
+  · exact hb
+  · exact rp
+  · exact rs.trans hsub
+  · exact hc
+  · exact hrt
+  · exact rtag
+  · intro c
+    simp [engineAck, acknowledge, returned, deliver]
+
+/-- `unroutable_request_returned` is not vacuous: `f9` has no queue, `f1` has -/
+example : isReturned [['f', '1']] (send .asyncio ⟨[], []⟩ (rpcRequest .classic ['i'] ['f', '9'] ['c'] ['{', '}'] [] 1000)) = true ∧
+    isReturned [['f', '1']] (send .asyncio ⟨[], []⟩ (rpcRequest .classic ['i'] ['f', '1'] ['c'] ['{', '}'] [] 1000)) = false ∧
+    (returned .blocking (send .blocking ⟨[], []⟩ (rpcRequest .classic ['i'] ['f', '9'] ['c'] ['{', '}'] [] 1000))).correlationId = .str ['c'] ∧
+    engineAck .asyncio [1, 2] (returned .asyncio (send .asyncio ⟨[], []⟩ (rpcRequest .classic ['i'] ['f', '9'] ['c'] ['{', '}'] [] 1000))) = [1, 2] := by
+  decide
 
 /-- `rpc_addressing` / `routing_by_subject` on the engine's event producer: subject = an instance queue that is declared -/
 example : (send .asyncio ⟨[], QN⟩ (Msg.setSubject { body := [], properties := [] } (.str (QN ++ ['-', 'a'])))).routingKey
